@@ -71,6 +71,7 @@ type c13Case struct {
 	Nodes   []c13Node  `json:"nodes,omitempty"`
 	Errors  []c13PyErr `json:"validator_errors,omitempty"`
 	Detail  string     `json:"detail,omitempty"`
+	AddRoot bool       `json:"add_root,omitempty"`   // tar-stream source: TarReaderOptions.AddRoot / --tar-add-root
 	Cap     int        `json:"capacity,omitempty"`   // fault family: the target accepts this many bytes
 	Mode    string     `json:"fault_mode,omitempty"` // enospc | transient | cli-fsize
 }
@@ -508,7 +509,7 @@ func (g *c13Gen) dir(path []string, depth int, fan int) {
 			n.Major = uint64(g.rng.Intn(4096))
 			n.Minor = uint64([]int{0, 3, 255, 256, 1 << 12, 1<<20 - 1}[g.rng.Intn(6)])
 		case k < 96 && g.special:
-			n.Type = "fifo"
+			n.Type = []string{"fifo", "socket"}[g.rng.Intn(2)]
 		default:
 			n.Type = "file"
 			n.Size = g.rng.Intn(100)
@@ -527,8 +528,12 @@ func (g *c13Gen) dir(path []string, depth int, fan int) {
 	}
 }
 
+// nodes per generated tree besides the one big directory (quick tier: smaller, the extracted
+// reader and tar() model cost about 3 ms per node)
+var c13Budget = 400
+
 func c13GenTree(rng *vh.Rand, bigDir int, special, xattrs bool) []c13Node {
-	g := &c13Gen{rng: rng, bigDir: bigDir, special: special, xattrs: xattrs, maxDepth: 1 + rng.Intn(5), budget: 400 + bigDir}
+	g := &c13Gen{rng: rng, bigDir: bigDir, special: special, xattrs: xattrs, maxDepth: 1 + rng.Intn(5), budget: c13Budget + bigDir}
 	root := c13Node{Type: "dir"}
 	g.meta(&root)
 	g.nodes = append(g.nodes, root)
@@ -667,6 +672,8 @@ func c13Materialize(root string, nodes []c13Node) error {
 			err = os.Symlink(string(t), p)
 		case "fifo":
 			err = syscall.Mkfifo(p, 0600)
+		case "socket":
+			err = syscall.Mknod(p, syscall.S_IFSOCK|0600, 0)
 		case "char":
 			err = syscall.Mknod(p, syscall.S_IFCHR|0600, int(c13Mkdev(n.Major, n.Minor)))
 		case "block":
@@ -988,6 +995,12 @@ func c13LibTar(dir string) (b []byte, err error) {
 // c13BuildTar writes the nodes as a PAX tar stream: directories before their content, children
 // in byte order (sorted) or in generation order (a stream as tar tools produce it: readdir order).
 func c13BuildTar(nodes []c13Node, sorted bool) ([]byte, []int, error) {
+	return c13BuildTarOpt(nodes, sorted, false)
+}
+
+// rootless: the members of the root directory only, named without a leading "./" (a stream as
+// `tar c *` writes it; meant for --tar-add-root)
+func c13BuildTarOpt(nodes []c13Node, sorted, rootless bool) ([]byte, []int, error) {
 	var emitted []int
 	kids := map[string][]int{}
 	for i := range nodes {
@@ -1004,6 +1017,10 @@ func c13BuildTar(nodes []c13Node, sorted bool) ([]byte, []int, error) {
 		n := &nodes[i]
 		emitted = append(emitted, i)
 		name := "./" + c13unhexRaw(n.Path)
+		if rootless {
+			name = c13unhexRaw(n.Path)
+		}
+		skipHeader := rootless && i == 0
 		h := &tar.Header{Name: name, Uid: n.UID, Gid: n.GID, Mode: int64(n.Mode), ModTime: time.Unix(0, n.Mtime), Format: tar.FormatPAX}
 		if len(n.Xattrs) > 0 {
 			h.PAXRecords = map[string]string{}
@@ -1036,10 +1053,12 @@ func c13BuildTar(nodes []c13Node, sorted bool) ([]byte, []int, error) {
 		case "fifo":
 			h.Typeflag = tar.TypeFifo
 		}
-		if err := tw.WriteHeader(h); err != nil {
+		if skipHeader {
+			// the root itself is not a member of the stream
+		} else if err := tw.WriteHeader(h); err != nil {
 			return err
 		}
-		if n.Type == "file" {
+		if n.Type == "file" && !skipHeader {
 			if _, err := tw.Write(c13Content(n)); err != nil {
 				return err
 			}
@@ -1518,6 +1537,8 @@ func runC13(a vh.Args, o *vh.Oracle, r *vh.Result) error {
 			return c13CheckSip(o, r, vh.UnHex(c.NameHex))
 		case "archive":
 			return c13CheckArchive(a, o, r, &c, 0)
+		case "stream":
+			return c13CheckStream(a, o, r, &c, 0)
 		case "fault":
 			mode := c.Mode
 			if mode == "cli-fsize" {
@@ -1529,6 +1550,9 @@ func runC13(a vh.Args, o *vh.Oracle, r *vh.Result) error {
 	}
 	rng := vh.NewRand(a.Seed)
 	thorough := a.Tier == "thorough"
+	if !thorough {
+		c13Budget = 150
+	}
 	t0 := time.Now()
 
 	// ---- bst: every n
@@ -1664,6 +1688,9 @@ func runC13(a vh.Args, o *vh.Oracle, r *vh.Result) error {
 		if err := c13CheckArchive(a, o, r, &c13Case{Kind: "archive", Source: src, Nodes: nodes}, id); err != nil {
 			return err
 		}
+	}
+	if err := c13RunStreams(a, o, r, rng.Fork(), thorough); err != nil {
+		return err
 	}
 	r.Note("archives done after %.1fs", time.Since(t0).Seconds())
 	// ---- write faults: success must mean a complete, well-formed archive
